@@ -211,8 +211,84 @@ Definition names_spec_ok (c : ncase) : bool :=
   forallb (fun t => negb (count_name c (nname t) =? 1)%nat ||
                     ((nout t =? 0) && (nret t - nstart t <=? nprompt c))) (nthreads c).
 
+(** ** system-call level: cases of kind 2
+
+    The scenario of a kind-0 case plus, for one traced process, its system calls on the lock
+    file in order (codes of c08ParseTrace in the harness).
+    [sys_agrees]: the steps the simulation takes for the threads and heartbeats of that
+    process, each mapped to the system calls it stands for in the state it is taken in, give
+    exactly the observed sequence.
+    [sys_spec_ok]: on the observation alone - the lock file is only ever created with
+    O_CREAT|O_EXCL, never renamed, truncated by name or opened for writing in another way; it
+    is written only right after that create or right after an ftruncate that follows an
+    O_RDWR open and a read; every write is followed by fsync and close. *)
+Definition sys_of (c : config) (s : state) (l : label) : list Z :=
+  match l with
+  | LTryCreate _ => match file s with None => [1] | Some _ => [2] end
+  | LWriteMeta _ => [3; 4; 5]
+  | LOpenRead _ => match file s with None => [11] | Some _ => [10; 7; 5] end
+  | LRemove _ => match file s with None => [15] | Some _ => [9] end
+  | LUnlock _ => match file s with None => [15] | Some _ => [9] end
+  | LHbWake i =>
+      match hb s i, file s with
+      | HSleep _ cr _, Some j =>
+          match content s j with
+          | FMeta fcr _ => if checks c && negb (opt_eqb fcr (Some cr)) then [6; 7; 5] else [6; 7; 8]
+          | _ => [6; 7; 5]
+          end
+      | _, _ => [12]
+      end
+  | LHbWrite _ => [3; 4; 5]
+  | _ => []
+  end.
+Definition label_pid (s : state) (l : label) : option pid :=
+  match l with
+  | LTryCreate t | LWriteMeta t | LOpenRead t | LRemove t | LWake t | LCancel t | LUnlock t => Some (cproc s t)
+  | LHbWake i | LHbWrite i => hb_proc (hb s i)
+  | _ => None
+  end.
+Fixpoint sys_trace_of (c : config) (p : pid) (s : state) (ls : list label) : list Z :=
+  match ls with
+  | [] => []
+  | l :: r =>
+      let here := match label_pid s l with Some q => if Nat.eqb q p then sys_of c s l else [] | None => [] end in
+      match step c s l with
+      | Some s' => here ++ sys_trace_of c p s' r
+      | None => here
+      end
+  end.
+Definition model_syscalls (c : case) (p : pid) : list Z :=
+  let cfg := cfg_repo_eps (if suspends (cevents c) then no_bound else sim_delta) (cgap c) in
+  let s0 := init_state (cinit c) (-1) in
+  let m := simulate cfg 4000 (chorizon c) (Sim s0 (script_of 0 (cevents c)) [] [] [] []) in
+  sys_trace_of cfg p s0 (rev (trace m)).
+Fixpoint zl_eqb (a b : list Z) : bool :=
+  match a, b with
+  | [], [] => true
+  | x :: a', y :: b' => (x =? y) && zl_eqb a' b'
+  | _, _ => false
+  end.
+Definition sys_agrees (c : case) (p : pid) (obs : list Z) : bool := zl_eqb (model_syscalls c p) obs.
+
+Fixpoint sys_shape (prev2 prev1 : Z) (l : list Z) : bool :=
+  match l with
+  | [] => true
+  | x :: r =>
+      negb ((x =? 13) || (x =? 14) || (x =? 16)) &&
+      (negb (x =? 3) || (prev1 =? 1) || ((prev1 =? 8) && (prev2 =? 7))) &&
+      (negb (x =? 8) || (prev1 =? 7)) &&
+      (negb (x =? 3) || match r with 4 :: 5 :: _ => true | _ => false end) &&
+      sys_shape prev1 x r
+  end.
+Definition sys_spec_ok (obs : list Z) : bool := sys_shape 0 0 obs.
+
 Definition check_line (l : list Z) : Z :=
   match l with
+  | 2 :: r =>
+      match decode (c <- get_case ;; p <- get_nat ;; o <- get_list get_z ;; ret (c, p, o)) r with
+      | Some (c, p, o) => code (sys_agrees c p o) (sys_spec_ok o)
+      | None => code_decode_error
+      end
   | 0 :: r =>
       match decode get_case r with
       | Some c => code (model_agrees c) (spec_ok c)
@@ -237,6 +313,11 @@ Definition explain_line (l : list Z) : list Z :=
           flat_map (fun x => [Z.of_nat (fst (fst x)); snd (fst x); snd x / 1000000]) (model_outlog c 0) ++
           [-7; (if mutex_ok c then 1 else 0); (if recovers_ok c then 1 else 0); (if cancel_ok c then 1 else 0);
            (if free_ok c then 1 else 0)]
+      | None => []
+      end
+  | 2 :: r =>
+      match decode (c <- get_case ;; p <- get_nat ;; o <- get_list get_z ;; ret (c, p, o)) r with
+      | Some (c, p, _) => model_syscalls c p
       | None => []
       end
   | 1 :: r =>
